@@ -52,6 +52,11 @@ PROFILES = {
     "unprintable": st.one_of(K, K, GR("repr")),
     "inexact": st.one_of(INEXACT_FLOATS, INEXACT_FLOATS, st.integers(-2, 5).map(lambda n: ["i", n])),
     "item": K,
+    # infinities among exactly representable numbers: inf + x = inf, inf - inf = nan - for the builtin and for any
+    # re-implementation of its summation
+    "infinite": st.one_of(st.integers(-3, 6).map(lambda n: ["f", n / 2]), st.integers(-2, 3).map(lambda n: ["i", n]),
+                          st.sampled_from([["inf", 1], ["inf", 1], ["inf", -1]])),  # (no huge finite floats: their sums are inexact,
+                          # which is the known finding sum-float-compensation)
     # sums whose RESULT is an awaitable object (deferred values): a sum is data, whoever adds does not await it
     "aw-add": st.one_of(st.just(("AW",)), st.just(("AW",)), st.integers(0, 3).map(lambda n: ["i", n])),
     # not a total order: NaN among floats (one NaN object, possibly several times) - what a comparison sort or a
